@@ -454,7 +454,15 @@ impl StreamSocket {
                     let segment = self.buf.swap_remove(&self.recv_seq).unwrap();
                     permit.send(segment)
                 }
-                Err(Closed(())) => return Err(Protocol::Tcp(Segment::Rst)),
+                Err(Closed(())) => {
+                    // The reader is gone. Unread data is answered with RST; a
+                    // FIN carries no data, so it is simply consumed.
+                    if matches!(self.buf.get(&self.recv_seq), Some(SequencedSegment::Fin)) {
+                        self.buf.swap_remove(&self.recv_seq);
+                        break;
+                    }
+                    return Err(Protocol::Tcp(Segment::Rst));
+                }
                 Err(Full(())) => {
                     self.recv_seq -= 1;
                     break;
@@ -563,7 +571,12 @@ impl Tcp {
             },
             Segment::Fin(seq) => match self.sockets.get_mut(&SocketPair::new(dst, src)) {
                 Some(sock) => sock.buffer(seq, SequencedSegment::Fin)?,
-                None => return Err(Protocol::Tcp(Segment::Rst)),
+                // A FIN for a stream that is already closed on this side
+                // carries no data, so nothing is lost by ignoring it. An RST
+                // in reply could overtake segments this side still has in
+                // flight (its own FIN, or data) and make the peer discard
+                // them.
+                None => {}
             },
             Segment::Rst => {
                 if self.sockets.get(&SocketPair::new(dst, src)).is_some() {
